@@ -68,7 +68,10 @@ type Verifier struct {
 	outOfSubset []string
 	cellSeq   int
 	vacProbes, vacOK int
+	coverSeen   map[string]bool // cover target -> reached on some path (sat or unknown)
+	coverOrder  []string
 	suppressObs int
+	noInterference int
 	resultFuncs map[int]resultFn // leaf term id of a func value returned by a contract call -> its contract
 	sums        map[*ssa.Function]*fnSummary
 	sumChanged  bool
@@ -508,6 +511,21 @@ func (v *Verifier) cutLoop(fn *ssa.Function, an *fnAnalysis, li *loopInfo, s *St
 	}
 	if li.calls {
 		s.bumpWM()
+		// calls in the body may change ghost globals of this package (through contracts): unknown at the loop head
+		// unless an invariant says otherwise
+		scope := shortPkg(fnPkg(v.top).Path())
+		for _, g := range sortedKeys(s.ghost) {
+			if strings.HasPrefix(g, "$") || !v.contracts.ghostInScope(g, scope) {
+				continue
+			}
+			if isMap(s.ghost[g].T) {
+				continue // ghost maps live in the heap (M: arrays), havoc'd with li.modHeap
+			}
+			if tfc := v.contracts.forFunc(v.top); tfc != nil && hasModifies(tfc) && !modifiesNamesGhost(tfc, g) {
+				continue // the function's frame keeps it (checked on the back edge)
+			}
+			s.ghost[g] = freshValue("loop!ghost!"+g, s.ghost[g].T)
+		}
 	}
 	for _, k := range sortedKeys(li.modHeap) {
 		s.freshHeap("Hl!", k, li.modHeap[k])
@@ -654,6 +672,16 @@ func (v *Verifier) execFrom(fn *ssa.Function, an *fnAnalysis, b *ssa.BasicBlock,
 			s1.assume(c)
 			s2 := s
 			s2.assume(Not(c))
+			// reachability (cover) probe: the body of a loop of the function under verification must be reachable from
+			// its head under the invariants -- otherwise everything proved about the body is vacuous
+			if li := an.loops[b]; li != nil && fn == v.top && s.frame != nil && s.frame.fn == v.top {
+				what := fmt.Sprintf("loop %d body", li.ordinal)
+				if li.body[b.Succs[0]] && b.Succs[0] != b {
+					v.cover(s1, what)
+				} else if li.body[b.Succs[1]] && b.Succs[1] != b {
+					v.cover(s2, what)
+				}
+			}
 			v.flow(fn, an, b, b.Succs[0], s1, fc, in)
 			v.flow(fn, an, b, b.Succs[1], s2, fc, in)
 			return
@@ -973,6 +1001,48 @@ func (v *Verifier) storeThrough(s *State, p *Value, val *Value, pos token.Pos) {
 		self := scalar(types.NewPointer(lv.st), lv.obj)
 		ev := &Eval{v: v, st: s, old: pre, env: map[string]*Value{"self": self}, mode: evalCall, pkg: fnPkg(v.top)}
 		v.addOb(s, "volatile", pos, ev.boolExpr(vs.Rel), "volatile "+typeName(lv.st)+"."+vs.Field+": "+vs.Text, vs.Props)
+	}
+}
+
+// cover records whether the point `what` is reachable: the path condition is checked for satisfiability; only a
+// definite unsat on every path that reaches the probe counts as unreachable.
+func (v *Verifier) cover(s *State, what string) {
+	if v.suppressObs > 0 {
+		return
+	}
+	if v.coverSeen == nil {
+		v.coverSeen = map[string]bool{}
+	}
+	if reached, ok := v.coverSeen[what]; ok && reached {
+		return
+	}
+	if _, ok := v.coverSeen[what]; !ok {
+		v.coverOrder = append(v.coverOrder, what)
+		v.coverSeen[what] = false
+	}
+	v.vacProbes++
+	res := Solve(Script(append([]*Term{}, s.pc...), false), 5, false, false)
+	if os.Getenv("GOVC_DEBUG") == "cover" {
+		fmt.Fprintf(os.Stderr, "DEBUG cover %s %s: %s (pc %d conjuncts)\n", funcRef(v.top), what, res.Status, len(s.pc))
+		if res.Status == "unsat" {
+			// shrink: find the shortest prefix of the path condition that is already contradictory
+			lo, hi := 0, len(s.pc)
+			for lo < hi {
+				mid := (lo + hi) / 2
+				if Solve(Script(append([]*Term{}, s.pc[:mid]...), false), 5, false, false).Status == "unsat" {
+					hi = mid
+				} else {
+					lo = mid + 1
+				}
+			}
+			if lo > 0 && lo <= len(s.pc) {
+				fmt.Fprintf(os.Stderr, "   contradictory after conjunct %d: %s\n", lo, trunc(s.pc[lo-1].String(), 600))
+			}
+		}
+	}
+	if res.Status != "unsat" {
+		v.coverSeen[what] = true
+		v.vacOK++
 	}
 }
 
